@@ -714,3 +714,55 @@ def _blank_lines_and_comments(src):
 add("E-global-01-ast-roundtrip-reformat", ALL_PROPS, "*", _reformat, None, kind="E", note="comments dropped, layout/quotes/parentheses normalised, all line numbers change")
 add("E-global-02-rename-all-locals", ALL_PROPS, "*", _rename_locals, None, kind="E", note="every local variable of every function renamed")
 add("E-global-03-shift-line-numbers", ALL_PROPS, "*", _blank_lines_and_comments, None, kind="E", note="two lines inserted at the top of every module")
+
+# ---------------------------------------------------------------------------
+# C11 dfg: Herbrand equivalence with the published algorithms
+# ---------------------------------------------------------------------------
+add("dfg-01-fasthash-len-low-byte", ["C11"], "hashes", "    h = seed ^ (key_len * m)", "    h = seed ^ ((key_len & 0xFF) * m)", rules=["dfg"])
+add("dfg-02-fhmix-shift-24", ["C11"], "hashes", "    h ^= h >> 23", "    h ^= h >> 24", rules=["dfg"])
+add("dfg-03-murmur-no-len-xor", ["C11"], "hashes", "    h = _xor32(h, key_len)\n    h = _fmix32(h)", "    h = _fmix32(h)", rules=["dfg"])
+add("dfg-04-murmur-xor-c3", ["C11"], "hashes", "        h = h * uint32(5) + c3", "        h = h * uint32(5) ^ c3", rules=["dfg"])
+add("dfg-05-murmur-tail2-rot16", ["C11"], "hashes",
+    "    elif switch_len == 2:\n        k1 = _xor32(k1, _shift32l(tail[1], 8))\n        k1 = _xor32(k1, tail[0])\n        k1 *= c1\n        k1 = _rotl32(k1, 15)",
+    "    elif switch_len == 2:\n        k1 = _xor32(k1, _shift32l(tail[1], 8))\n        k1 = _xor32(k1, tail[0])\n        k1 *= c1\n        k1 = _rotl32(k1, 16)", rules=["dfg"])
+add("dfg-06-fasthash32-xor-fold", ["C11"], "hashes", "    return uint32(h - (h >> 32))", "    return uint32(h ^ (h >> 32))", rules=["dfg"])
+add("dfg-07-rotl-31-minus-r", ["C11"], "hashes", "    return _shift32l(x, r) | _shift32r(x, 32 - r)", "    return _shift32l(x, r) | _shift32r(x, 31 - r)", rules=["dfg"])
+add("dfg-08-murmur-tail-sign-extension", ["C11"], "hashes", "        k1 = _xor32(k1, _shift32l(tail[2], 16))", "        k1 = _xor32(k1, _shift32l(types.int8(tail[2]), 16))", rules=["dfg", "bytes-once"])
+add("dfg-09-fasthash-tail-not-multiplied", ["C11"], "hashes",
+    "        v ^= uint64(tail[0])\n        h ^= _fhmix64(v)\n        h *= m\n\n    return _fhmix64(h)", "        v ^= uint64(tail[0])\n        h ^= _fhmix64(v)\n\n    return _fhmix64(h)", rules=["dfg"])
+add("dfg-10-fmix-constant", ["C11"], "hashes", "    h *= uint32(0xC2B2AE35)", "    h *= uint32(0xC2B2AE3D)", rules=["dfg"])
+add("dfg-11-fasthash-blocks-unmixed", ["C11"], "hashes", "        for v in blocks:\n            h ^= _fhmix64(v)", "        for v in blocks:\n            h ^= v", rules=["dfg"])
+add("dfg-12-murmur-block-order-of-ops", ["C11"], "hashes", "        h = _xor32(h, k1)\n        h = _rotl32(h, 13)\n        h = h * uint32(5) + c3", "        h = _rotl32(h, 13)\n        h = _xor32(h, k1)\n        h = h * uint32(5) + c3", rules=["dfg"])
+add("dfg-13-fhmix-64bit-intermediate-lost", ["C11"], "hashes", "@njit(uint64(uint64))\ndef _fhmix64(h):", "@njit(uint32(uint64))\ndef _fhmix64(h):", rules=["dfg", "uwidth"])
+add("E-dfg-01-strength-reduced-times5", ["C11"], "hashes", "        h = h * uint32(5) + c3", "        h = (h << 2) + h + c3", kind="E")
+add("E-dfg-02-inline-xor32", ["C11"], "hashes", "    h = _xor32(h, key_len)\n    h = _fmix32(h)", "    h = h ^ key_len\n    h = _fmix32(h)", kind="E")
+add("E-dfg-03-fasthash-accumulate-order", ["C11"], "hashes", "    h = seed ^ (key_len * m)", "    h = (m * key_len) ^ seed", kind="E")
+add("E-dfg-04-fhmix-temporaries", ["C11"], "hashes", "    h ^= h >> 23\n    h *= uint64(0x2127599BF4325C37)\n    h ^= h >> 47\n\n    return h",
+    "    a = h ^ (h >> 23)\n    b = a * uint64(0x2127599BF4325C37)\n    return b ^ (b >> 47)", kind="E")
+
+# ---------------------------------------------------------------------------
+# fast paths / aliasing (learned from independently seeded changes)
+# ---------------------------------------------------------------------------
+add("skip-01-log-counter-narrowed-fast-path", ["C05", "C06", "C18"], "countmin",
+    "    one = uint16(1)\n    for i in range(value):", "    one = uint16(1)\n    step = uint16(value)\n    if counter + step <= num_reserved:\n        return counter + step, rand_ptr\n    for i in range(value):", rules=["logstep"])
+add("E-skip-01-log-counter-exact-fast-path", ["C05", "C06", "C18"], "countmin",
+    "    one = uint16(1)\n    for i in range(value):", "    one = uint16(1)\n    if counter + value <= num_reserved:\n        return counter + uint16(value), rand_ptr\n    for i in range(value):", kind="E")
+add("skip-02-add-linear-skips-when-row0-high", ["C05", "C01"], "countmin",
+    "    # Counter is maxed out, nothing to do\n    if min_count == uint_maxval:\n        return\n", "    # Counter is maxed out, nothing to do\n    if min_count == uint_maxval or cms[0, buckets[0]] > min_count + value:\n        return\n", rules=["no-skip"])
+add("skip-03-add-log16-skips-large-counts", ["C05"], "countmin",
+    "    # Nothing to do\n    if new_count == min_count:\n        return rand_ptr\n\n    # Now update only those counters that are below the new value\n    for row in range(depth):\n        count = cms[row, buckets[row]]\n        if count < new_count:\n            cms[row, buckets[row]] = new_count\n\n    return rand_ptr\n\n\n@njit(\n    uint64(\n        uint16[:, :],",
+    "    # Nothing to do\n    if new_count == min_count or new_count > uint16(60000):\n        return rand_ptr\n\n    # Now update only those counters that are below the new value\n    for row in range(depth):\n        count = cms[row, buckets[row]]\n        if count < new_count:\n            cms[row, buckets[row]] = new_count\n\n    return rand_ptr\n\n\n@njit(\n    uint64(\n        uint16[:, :],", rules=["no-skip"])
+add("skip-04-hh-add-skips-small-values", ["C04"], "heavyhitters",
+    "    n_added_records[0] += uint64(value)\n    for row in range(depth):\n        col = fasthash64(key, row) % width", "    n_added_records[0] += uint64(value)\n    if value < uint32(2) and depth > 1:\n        return\n    for row in range(depth):\n        col = fasthash64(key, row) % width", rules=["no-skip"])
+add("alias-01-hll-merge-adopts-registers", ["C02", "C15", "C16"], "hyperloglog",
+    "        _merge(self.registers, other.registers, self.m)\n", "        if not self.registers.any():\n            self.registers = np.asarray(other.registers, dtype=np.uint8)\n            return\n        _merge(self.registers, other.registers, self.m)\n", rules=["state-owner", "wrapper-once"])
+add("alias-02-linear-query-memo", ["C01", "C05"], "countmin",
+    "        return _query_linear(\n            self.cms, self.buckets, self.width, self.depth, self.uint_maxval, key\n        )",
+    "        if getattr(self, \"_last_key\", None) == key:\n            return self._last_val\n        self._last_key = key\n        self._last_val = _query_linear(\n            self.cms, self.buckets, self.width, self.depth, self.uint_maxval, key\n        )\n        return self._last_val", rules=["wrapper-once"])
+add("alias-03-hh-load-rebinds-counts", ["C10", "C16"], "heavyhitters",
+    "            np.copyto(hh.lhh_count, npzfile[\"lhh_count\"])", "            hh.lhh_count = npzfile[\"lhh_count\"]", rules=["state-owner", "persist-table"])
+
+add("reload-01-hh-phi-upper-bound-exclusive (F4 pre-fix)", ["C10"], "heavyhitters",
+    "        if isinstance(phi, float_types) and (phi <= 0.0 or phi > 1.0):", "        if isinstance(phi, float_types) and (phi <= 0.0 or phi >= 1.0):", rules=["reload-valid"])
+add("reload-02-hh-phi-default-two-over-width", ["C10"], "heavyhitters",
+    "            self.phi = np.float64(1.0 / self.width)", "            self.phi = np.float64(2.0 / self.width)", rules=["reload-valid"])
